@@ -11,6 +11,7 @@ import (
 	"fmt"
 
 	"github.com/remieven/ysgo"
+	"github.com/remieven/ysgo/variable"
 )
 
 type c07Exp struct {
@@ -20,6 +21,9 @@ type c07Exp struct {
 	Twice bool `json:"twice,omitempty"` // the receiver was restored from the same snapshot before and driven on
 	Pair  bool `json:"pair,omitempty"`  // a second receiver restored from the same snapshot is driven first (isolation)
 	Bogus bool `json:"bogus,omitempty"` // restore a snapshot naming an unknown node instead
+	// Durable: the receiver is given a rebuilt copy of the snapshot (fresh maps, fresh values - what comes back
+	// from a save file after a crash), not the value the original runner handed out
+	Durable bool `json:"durable,omitempty"`
 	X     []Op `json:"x"`
 	X2    []Op `json:"x2,omitempty"`
 }
@@ -105,6 +109,7 @@ func c07World(tp *Tape, env *Env) (*Plan, *Violation) {
 		e.Twice = tp.Chance(15, "twice")
 		e.Pair = tp.Chance(25, "pair")
 		e.Bogus = tp.Chance(10, "bogus")
+		e.Durable = tp.Chance(35, "durable")
 		e.X = drawDynOps(tp, tp.Int(2, 6, "nx"), g.vars, 12, withCmd)
 		if e.Pair {
 			e.X2 = drawDynOps(tp, tp.Int(2, 5, "nx2"), g.vars, 12, withCmd)
@@ -116,6 +121,39 @@ func c07World(tp *Tape, env *Env) (*Plan, *Violation) {
 	env.St.sample(map[string]any{"script": readerTexts(&w), "original": describeDynOps(ops), "experiments": len(exps), "first_experiment": exps[0]})
 	journal(plan)
 	return plan, c07Exec(plan, env.St)
+}
+
+// rebuiltSnapshot returns what a host gets back after writing a snapshot to a save file and reading it
+// again: equal content, nothing shared with the original (new maps, new value cells; an empty map may
+// come back as nil).
+func rebuiltSnapshot(s *ysgo.Snapshot) *ysgo.Snapshot {
+	c := &ysgo.Snapshot{CurrentNode: string(append([]byte{}, s.CurrentNode...))}
+	if len(s.Variables) > 0 {
+		c.Variables = map[string]variable.Value{}
+		for k, v := range s.Variables {
+			var nv variable.Value
+			if v.Number != nil {
+				x := *v.Number
+				nv.Number = &x
+			}
+			if v.Boolean != nil {
+				x := *v.Boolean
+				nv.Boolean = &x
+			}
+			if v.String != nil {
+				x := string(append([]byte{}, *v.String...))
+				nv.String = &x
+			}
+			c.Variables[k] = nv
+		}
+	}
+	if len(s.VisitedNodes) > 0 {
+		c.VisitedNodes = map[string]int{}
+		for k, v := range s.VisitedNodes {
+			c.VisitedNodes[k] = v
+		}
+	}
+	return c
 }
 
 func safeRestore(d *dynRunner, s *ysgo.Snapshot) (err error, panicked any) {
@@ -244,7 +282,14 @@ func c07Exec(plan *Plan, st *Stats) *Violation {
 		// restoreAndAlign restores T from snapshot k, checks I2, builds the reference and aligns both at
 		// "first element of the node delivered".
 		restoreAndAlign := func(ei int, T *dynRunner, k int) (*dynRunner, *Violation) {
-			err, pv := safeRestore(T, snaps[k])
+			snap := snaps[k]
+			if exps[ei].Durable {
+				snap = rebuiltSnapshot(snap)
+				if st != nil {
+					st.probe("restored_from_a_rebuilt_copy_of_the_snapshot")
+				}
+			}
+			err, pv := safeRestore(T, snap)
 			if pv != nil {
 				return nil, &Violation{Clause: "C07.I3", OpIndex: ei, Observed: fmt.Sprint(pv), Note: "RestoreAt panicked"}
 			}
